@@ -119,7 +119,10 @@ def grammar_text(rules, noast=False, header=""):
 
 # ---------------------------------------------------------------- random grammars (mostly well-formed)
 ALPHA = [97, 98, 99, 100]          # a b c d
-EXTRA = [10, 0xE9, 0x1F600]        # newline, 2-byte, 4-byte
+EXTRA = [10, 0xE9, 0x1F600, 0x10FFFF, 0]        # newline, 2-byte, 4-byte, the maximum code point, NUL
+# what a Go string can hold besides ordinary text: the boundary code points, the replacement character, and
+# (as lone surrogates, which encode to invalid UTF-8 and reach the parser as U+FFFD runes) undecodable bytes
+HOSTILE = [10, 0xE9, 0x1F600, 0x10FFFF, 0x10FFFE, 0, 0xFFFD, 0xD800, 0xDFFF, 0xFFFF, 0x10000]
 
 
 class GGen:
@@ -145,6 +148,8 @@ class GGen:
             lo = r.choice(ALPHA)
             hi = r.choice([x for x in ALPHA if x >= lo])
             items = [("r", lo, hi)] if r.random() < 0.6 else [("c", r.choice(al)), ("c", r.choice(al))]
+            if r.random() < 0.06:
+                items = [("r", r.choice([0x80, 0x10000, 0x10FFFE]), 0x10FFFF)]       # up to the maximum code point
             if r.random() < 0.3:
                 items.append(("c", r.choice(al)))
             return ("cls", r.random() < 0.2, r.random() < 0.1, items)
@@ -430,6 +435,8 @@ class GGenSW:
             h = self.head(rank)
             if depth > 0 and r.random() < 0.15:
                 h = self.choice(rank, depth - 1)
+            if h[0] in ("chr", "cls", "str") and r.random() < 0.2:
+                h = ("seq", [h, ("push", ("plus", ("cls", False, False, [("r", 48, 57)])))])     # 'i' <[0-9]+>
             items = [h] + self.tail(rank)
             if r.random() < 0.12:
                 # possibly-empty choice in head position, followed by something that consumes
@@ -446,6 +453,28 @@ class GGenSW:
         self.nact += 1
         return self.nact - 1
 
+    def clean_choice(self, rank):
+        """three to five alternatives with pairwise distinct first letters (the whole choice becomes a
+        switch), most of which record a token (capture, rule reference, action) after the first letter"""
+        r = self.rng
+        letters = r.sample(self.LETTERS, r.randint(3, 5))
+        alts = []
+        for c in letters:
+            k = r.random()
+            items = [("chr", c)]
+            if k < 0.4:
+                items.append(("push", ("plus", ("cls", False, False, [("r", 48, 57)]))))
+            elif k < 0.6 and rank > 0:
+                cand = [n for n in self.names[:rank] if n not in self.nullable]
+                if cand:
+                    items.append(("name", r.choice(cand)))
+            elif k < 0.75:
+                items.append(("act", self._act()))
+            elif k < 0.85:
+                items = [("push", ("chr", c))]
+            alts.append(("seq", items) if len(items) > 1 else items[0])
+        return ("alt", alts)
+
     def grammar(self):
         r = self.rng
         rules = []
@@ -453,10 +482,27 @@ class GGenSW:
             self.cur = nm
             body = self.choice(i, 1)
             w = r.random()
-            if w < 0.25 and nm not in self.nullable:
+            if 0.3 <= w < 0.55 and nm not in self.nullable and r.random() < 0.6:
+                body = self.clean_choice(i)
+            if w < 0.2 and nm not in self.nullable:
                 body = ("plus", body)
-            elif w < 0.35:
+            elif w < 0.3:
                 body = ("seq", [("push", body), ("act", self._act())])
+            elif w < 0.55 and nm not in self.nullable:
+                # the choice sits directly inside a repetition, an option or a lookahead, followed by a
+                # separator that decides: tokens recorded by a case must disappear when the operand is abandoned
+                inner = ("seq", [body, ("chr", r.choice([0x3B, 0x2C]))])
+                k = r.random()
+                if k < 0.4:
+                    body = ("star", inner)
+                    self.nullable.add(nm)
+                elif k < 0.6:
+                    body = ("seq", [("q", inner), ("star", ("chr", r.choice(self.LETTERS)))])
+                    self.nullable.add(nm)
+                elif k < 0.8:
+                    body = ("seq", [("not", inner), body])
+                else:
+                    body = ("seq", [("and", inner), body])
             rules.append((nm, body))
         nm, body = rules[-1]
         refs = [("q", ("seq", [("chr", 0x77), ("name", n)])) for n in self.names[:-1]]
@@ -583,9 +629,9 @@ def grammar_inputs(rng, rules, n):
             elif m < 0.7:
                 s = s[:k] + [rng.choice(pool)] + s[k + 1:]
             else:
-                s = s[:k] + [rng.choice(pool + [10, 0xE9, 0x1F600])] + s[k:]
+                s = s[:k] + [rng.choice(pool + HOSTILE)] + s[k:]
         else:
-            s = [rng.choice(pool) for _ in range(rng.randint(1, 5))]
+            s = [rng.choice(pool + (HOSTILE if rng.random() < 0.3 else [])) for _ in range(rng.randint(1, 5))]
         outs.append("".join(chr(x) for x in s))
     return outs
 
